@@ -17,7 +17,7 @@ from .values import (Unsupported, SV, MNONE, MTup, MList, MDict, MFn, MCls, MNS,
                      fresh, fresh_name, const, type_of, unify_types, pack, as_sv, unify_values,
                      tuple_items, truthy, is_none, strip_opt, py_eq, py_lt, ite,
                      FAMILY_EQ_STR, FAMILY_EQ)
-from .values import MFrozen, MDictV, MEnum, MRev, MZip, MRange
+from .values import MFrozen, MDictV, MEnum, MRev, MZip, MRange, MAlias
 from .spec import FnSpec, Family, Contract
 
 NORMAL, RETURN, RAISE, BREAK, CONTINUE = 'normal', 'return', 'raise', 'break', 'continue'
@@ -298,6 +298,8 @@ class Verifier:
             v = st.env[name]
             if isinstance(v, MU):
                 v = self.check_bound(st, v, node, name)
+            if isinstance(v, MAlias):
+                return self.get_attr(st, v.obj, v.attr, node)
             return v
         for fr in reversed(self.frames):
             if name in fr:
@@ -910,8 +912,12 @@ class Verifier:
         return v
 
     # ------------------------------------------------------------- statements
-    def bind_target(self, tgt, val, st, node):
+    def bind_target(self, tgt, val, st, node, mutation=False):
         if isinstance(tgt, ast.Name):
+            cur = st.env.get(tgt.id)
+            if mutation and isinstance(cur, MAlias):
+                self.set_attr(st, cur.obj, cur.attr, val, node)
+                return
             lt = self.c.locals.get(tgt.id) if not self.inline_depth else None
             if lt is not None and not isinstance(val, (SV, MU)) and val is not MNONE:
                 val = as_sv(val, lt)       # declared local type: literals become typed values
@@ -1051,6 +1057,14 @@ class Verifier:
 
     def st_Assign(self, s, st):
         val = self.ev(s.value, st)
+        if len(s.targets) == 1 and isinstance(s.targets[0], ast.Name) and isinstance(s.value, ast.Attribute) \
+                and isinstance(val, SV) and isinstance(val.t, (SeqT, SetT, DictT)):
+            # x = obj.field where field is a mutable container on the heap: x aliases it
+            obj = self.ev(s.value.value, st)
+            o2 = strip_opt(obj) if isinstance(obj, SV) else obj
+            if isinstance(o2, SV) and isinstance(o2.t, ObjT) and s.value.attr in self.family(o2.t.family).fields:
+                st.env[s.targets[0].id] = MAlias(o2, s.value.attr)
+                return [Outcome(NORMAL, st)]
         for t in s.targets:
             self.bind_target(t, val, st, s)
         return [Outcome(NORMAL, st)]
